@@ -127,8 +127,8 @@ func probeCapacity(e *pagedrv.Env, _ json.RawMessage, info map[string]interface{
 	if s.Stats.MetaAllocated != s.MetaTotal-s.MetaAvail {
 		e.Viol = append(e.Viol, pagedrv.Violation{Class: "stats/meta-allocated", Msg: fmt.Sprintf("FileStats.MetaAllocated=%d, meta total-free=%d", s.Stats.MetaAllocated, s.MetaTotal-s.MetaAvail)})
 	}
-	if s.Stats.MaxSize != uint64(e.Cfg.MaxPages*e.Cfg.PageSize) {
-		e.Viol = append(e.Viol, pagedrv.Violation{Class: "stats/max-size", Msg: fmt.Sprintf("FileStats.MaxSize=%d, configured %d", s.Stats.MaxSize, e.Cfg.MaxPages*e.Cfg.PageSize)})
+	if want := uint64(e.Cfg.MaxPages * e.Cfg.PageSize); s.Stats.MaxSize != want && s.Stats.MaxSize != want+uint64(e.Cfg.Extra) {
+		e.Viol = append(e.Viol, pagedrv.Violation{Class: "stats/max-size", Msg: fmt.Sprintf("FileStats.MaxSize=%d, configured %d", s.Stats.MaxSize, e.Opts.MaxSize)})
 	}
 	if e.Disk.MaxExtent > int64(e.Cfg.MaxPages*e.Cfg.PageSize) {
 		e.Viol = append(e.Viol, pagedrv.Violation{Class: "space/extent", Msg: fmt.Sprintf("file grew to %d bytes, maximum size is %d", e.Disk.MaxExtent, e.Cfg.MaxPages*e.Cfg.PageSize)})
@@ -199,6 +199,10 @@ var (
 		{K: pagedrv.OBegin}, {K: pagedrv.OFreeEveryOther, A: 1}, {K: pagedrv.OWrite, A: 0}, {K: pagedrv.OCommit}}}
 	seedFull = seed{"full", []O{{K: pagedrv.OBegin}, {K: pagedrv.OAlloc, A: 2}, {K: pagedrv.OWriteAll}, {K: pagedrv.OCommit},
 		{K: pagedrv.OBegin}, {K: pagedrv.OAllocAvail, A: 0}, {K: pagedrv.OCommit}}}
+	// full bounded file whose meta area lives partly in the overflow area (pages past the maximum size)
+	seedOverflow = seed{"overflow-used", []O{{K: pagedrv.OBegin}, {K: pagedrv.OAlloc, A: 2}, {K: pagedrv.OWriteAll}, {K: pagedrv.OCommit},
+		{K: pagedrv.OBegin}, {K: pagedrv.OAllocAvail, A: 0}, {K: pagedrv.OCommit},
+		{K: pagedrv.OBegin, B: 1}, {K: pagedrv.OWrite, A: 0}, {K: pagedrv.OWrite, A: 1}, {K: pagedrv.OCommit}}}
 	seedWide = seed{"wide-overwritten", []O{{K: pagedrv.OBegin}, {K: pagedrv.OAlloc, A: 14}, {K: pagedrv.OWriteAll}, {K: pagedrv.OCommit},
 		{K: pagedrv.OBegin}, {K: pagedrv.OWriteAll}, {K: pagedrv.OCommit}}}
 )
@@ -211,6 +215,28 @@ type bfsRun struct {
 
 func (r bfsRun) name() string { return r.Cfg.Name + "/" + r.Seed.Name }
 
+// quickPlan is the hand-picked list of (configuration, seed) searches of the
+// quick tier: every seed once, on the configuration where it matters most.
+func quickPlan(depth, seedDepth int, overflow, unbounded bool) []bfsRun {
+	runs := []bfsRun{
+		{pagedrv.CfgA, seedEmpty, depth},
+		{pagedrv.CfgA, seedTail, seedDepth},
+		{pagedrv.CfgB, seedTail, seedDepth},
+		{pagedrv.CfgA, seedFrag, seedDepth},
+		{pagedrv.CfgA, seedWAL, seedDepth},
+		{pagedrv.CfgA, seedFull, seedDepth},
+	}
+	if overflow {
+		runs = append(runs, bfsRun{pagedrv.CfgB, seedOverflow, seedDepth})
+	}
+	if unbounded {
+		runs = append(runs, bfsRun{pagedrv.CfgC, seedEmpty, depth}, bfsRun{pagedrv.CfgC, seedWide, seedDepth})
+	} else {
+		runs = append(runs, bfsRun{pagedrv.CfgB, seedEmpty, depth})
+	}
+	return runs
+}
+
 // plan builds the list of searches: the empty file to full depth, every other
 // seed to a smaller depth, on every configuration (bounded-only seeds are
 // skipped on unbounded files).
@@ -221,7 +247,7 @@ func plan(cfgs []pagedrv.Cfg, seeds []seed, depth, seedDepth int) []bfsRun {
 	}
 	for _, sd := range seeds {
 		for _, c := range cfgs {
-			if sd.Name == "full" && c.MaxPages == 0 {
+			if (sd.Name == "full" || sd.Name == "overflow-used") && c.MaxPages == 0 {
 				continue
 			}
 			out = append(out, bfsRun{c, sd, seedDepth})
@@ -259,6 +285,9 @@ func runC04(ctx *core.Ctx, pool *par.Pool) {
 	var total xstate.Stats
 	sweeps := 0
 	runs := plan(cfgs, []seed{seedTail, seedFrag, seedWAL, seedFull}, depth, seedDepth)
+	if ctx.Quick() {
+		runs = quickPlan(depth, seedDepth, false, true)
+	}
 	for _, run := range runs {
 		ctx.Share(ctx.Budget() / time.Duration(len(runs)))
 		cfg := run.Cfg
@@ -292,6 +321,11 @@ func runC11(ctx *core.Ctx, pool *par.Pool) {
 	probes := 0
 	outcomes := map[string]int{}
 	runs := plan(cfgs, []seed{seedTail, seedFrag, seedWAL, seedFull}, depth, seedDepth)
+	if ctx.Quick() {
+		runs = append(quickPlan(depth, seedDepth, false, false), bfsRun{pagedrv.CfgU, seedEmpty, depth - 1})
+	} else {
+		runs = append(runs, bfsRun{pagedrv.CfgU, seedEmpty, depth - 1}, bfsRun{pagedrv.CfgU, seedTail, seedDepth - 1})
+	}
 	for _, run := range runs {
 		ctx.Share(ctx.Budget() / time.Duration(len(runs)))
 		cfg := run.Cfg
@@ -332,7 +366,10 @@ func runC07(ctx *core.Ctx, pool *par.Pool) {
 	}
 	var total xstate.Stats
 	aborts, twinsRun := 0, 0
-	runs := plan(cfgs, []seed{seedTail, seedFrag, seedWAL, seedFull}, depth, seedDepth)
+	runs := plan(cfgs, []seed{seedTail, seedFrag, seedWAL, seedFull, seedOverflow}, depth, seedDepth)
+	if ctx.Quick() {
+		runs = quickPlan(depth, seedDepth, true, true)
+	}
 	for _, run := range runs {
 		ctx.Share(ctx.Budget() / time.Duration(len(runs)))
 		cfg := run.Cfg
@@ -422,7 +459,10 @@ func runC10(ctx *core.Ctx, pool *par.Pool) {
 	}
 	var total xstate.Stats
 	reopens, twinsRun := 0, 0
-	runs := plan(cfgs, []seed{seedTail, seedFrag, seedWAL, seedFull, seedWide}, depth, seedDepth)
+	runs := plan(cfgs, []seed{seedTail, seedFrag, seedWAL, seedFull, seedOverflow, seedWide}, depth, seedDepth)
+	if ctx.Quick() {
+		runs = quickPlan(depth-1, seedDepth-1, true, true)
+	}
 	for _, run := range runs {
 		ctx.Share(ctx.Budget() * 8 / 10 / time.Duration(len(runs)))
 		cfg := run.Cfg
